@@ -23,7 +23,7 @@ except Exception as _e:      # entry points renamed / not importable: every case
 BAD = 987654321          # decoded value of something that is not an integer tag
 KIND = {"vector": "KVector", "image": "KImage", "discrete": "KDiscrete", "dict": "KDict", "tuple": "KTuple"}
 MODE = {"term": "MTerm", "trunc": "MTrunc", "mixed": "MMixed"}
-INFO_KEYS = {"tag": 0, "first": 1}
+INFO_KEYS = {"tag": 0, "first": 1, "opt": 2}
 RUN_TIMEOUT = 30         # wall-clock guard per run (s)
 
 
@@ -71,8 +71,57 @@ def canon_vec(d):
             for agent, v in d.items()]
 
 
+def jsonable(x):
+    """any info value -> something JSON can hold and == can compare (nan -> "nan")"""
+    if isinstance(x, np.ndarray):
+        return [jsonable(y) for y in x.tolist()] if x.dtype != object else [jsonable(y) for y in x]
+    if isinstance(x, (list, tuple)):
+        return [jsonable(y) for y in x]
+    if isinstance(x, (bool, np.bool_)):
+        return bool(x)
+    if isinstance(x, (int, np.integer)):
+        return int(x)
+    if isinstance(x, (float, np.floating)):
+        return "nan" if x != x else float(x)
+    if x is None:
+        return "nan"          # _add_info stores None as nan in a float array
+    return str(x)
+
+
+def flatten_info(d, prefix=""):
+    """a single environment's info dict of one agent -> {dotted path: value} (INFO_KEYS excluded at top level)"""
+    out = {}
+    for k, v in d.items():
+        if not prefix and k in INFO_KEYS:
+            continue
+        if isinstance(v, dict):
+            out.update(flatten_info(v, prefix + k + "."))
+        else:
+            out[prefix + k] = jsonable(v)
+    return out
+
+
+def flatten_vinfo(sub, prefix=""):
+    """vectorised sub-dict of one agent -> [[dotted path, per-env values, per-env mask]]"""
+    out = []
+    for k, v in sub.items():
+        if k.startswith("_") or (not prefix and k in INFO_KEYS):
+            continue
+        mask = [bool(x) for x in sub.get("_" + k, [])]
+        if isinstance(v, dict):
+            for path, vals, m in flatten_vinfo(v, prefix + k + "."):
+                out.append([path, vals, [x and y for x, y in zip(m, mask)] if len(m) == len(mask) else []])
+        else:
+            out.append([prefix + k, jsonable(v), mask])
+    return out
+
+
+def c12_flatten(d):
+    return flatten_info(d)
+
+
 def canon_infos(infos):
-    ag, masks, unknown = [], [], []
+    ag, masks, unknown, extra = [], [], [], []
     for k, v in infos.items():
         if k.startswith("_"):
             if k[1:].startswith("agent_"):
@@ -85,14 +134,14 @@ def canon_infos(infos):
             continue
         sub = []
         for kk, vv in v.items():
-            if kk.startswith("_"):
-                continue
-            if kk not in INFO_KEYS:
-                unknown.append(f"{k}.{kk}")
+            if kk.startswith("_") or kk not in INFO_KEYS:
                 continue
             sub.append([INFO_KEYS[kk], [to_int(x) for x in vv], [bool(x) for x in v.get("_" + kk, [])]])
         ag.append([int(k.split("_")[1]), sub])
-    return {"agents": ag, "masks": masks, "unknown": unknown}
+        ex = flatten_vinfo(v)
+        if ex:
+            extra.append([int(k.split("_")[1]), ex])
+    return {"agents": ag, "masks": masks, "unknown": unknown, "extra": extra}
 
 
 def canon_single(kind, obs):
@@ -165,13 +214,30 @@ def cseed(s):
     return "None" if s is None else f"(Some {coq_Z(s)})"
 
 
+def cseedspec(s):
+    if s is None:
+        return "SNone"
+    if isinstance(s, list):
+        return f"(SList {czs(s)})"
+    return f"(SInt {coq_Z(s)})"
+
+
+def options_of(case):
+    return None if case.get("opt") is None else {"opt": int(case["opt"])}
+
+
+def seed_for(case, i):
+    s = case["seed"]
+    return None if s is None else s[i] if isinstance(s, list) else s + i
+
+
 # ------------------------------------------------------------------ reference: environments stepped alone
 class Reference:
     """environment i stepped alone (sequentially, in this process) under auto-reset"""
 
-    def __init__(self, params, seed):
+    def __init__(self, params, seed, options=None):
         self.env = ScriptedEnv(**params)
-        self.obs, self.info = self.env.reset(seed=seed)
+        self.obs, self.info = self.env.reset(seed=seed, options=options)
         self.resets = 1
 
     def step(self, actions):
@@ -193,7 +259,7 @@ def aorder(case):
 def env_params(case, i, e):
     return dict(eid=i, nagents=case["nag"], lens=e["lens"], mode=e["mode"], leave=e.get("leave", {}),
                 kind=case["obs"], akind=case["akind"], unaligned=bool(e.get("unaligned", False)),
-                reversed_out=bool(e.get("reversed_out", False)))
+                reversed_out=bool(e.get("reversed_out", False)), rich_info=bool(case.get("rich_info", False)))
 
 
 # ------------------------------------------------------------------ the driver
@@ -251,11 +317,14 @@ class C12(vlib.Driver):
                     {"lens": [3, 1], "mode": mode, "leave": leaves[lv] if lv == 2 else {}}]
             if quick and not (copy or akind == "discrete"):
                 continue
+            if quick and akind in ("md2", "dlist") and lv != 0:
+                continue
             if (lv + (0 if copy else 1)) % 2 == 1:      # half of the grid: every env returns its dicts reversed
                 for e in envs:
                     e["reversed_out"] = True
             cases.append({"kind": "vec", "obs": obs, "akind": akind, "nag": nag, "copy": copy,
-                          "seed": rng.choice([None, 0, 3, 11]), "envs": envs, "actions": actions(7, nag, 3),
+                          "seed": rng.choice([None, 0, 3, 11, [9, 2, 14]]), "opt": rng.choice([None, None, 0, 4]),
+                          "rich_info": len(cases) % 4 == 1, "envs": envs, "actions": actions(7, nag, 3),
                           "aorder": perm(nag, len(cases) % 3 != 0)})
         def rand_space():
             st = rng.choice(["plain", "dict", "tuple"])
@@ -287,7 +356,9 @@ class C12(vlib.Driver):
             steps = rng.randint(6, 12) if quick else rng.randint(6, 14)
             cases.append({"kind": "vec", "obs": rng.choice(c12_env.OBS_KINDS) if rng.random() < 0.5 else rand_space(),
                           "akind": rng.choice(c12_env.ACT_KINDS),
-                          "nag": nag, "copy": rng.random() < 0.6, "seed": rng.choice([None, 0, 1, 7, 20]),
+                          "nag": nag, "copy": rng.random() < 0.6,
+                          "seed": rng.choice([None, 0, 1, 7, 20, [rng.randrange(30) for _ in range(N)]]),
+                          "opt": rng.choice([None, 1, 6]), "rich_info": rng.random() < 0.25,
                           "envs": envs, "actions": actions(steps, nag, N), "aorder": perm(nag, rng.random() < 0.6)})
         # other multiprocessing start methods (workers import c12_env themselves; ~8 s per run)
         for ctx, obs in ([("spawn", "dict")] if quick else [("spawn", "dict"), ("spawn", "image"), ("forkserver", "tuple"), ("forkserver", "vector")]):
@@ -311,7 +382,7 @@ class C12(vlib.Driver):
         # the single-environment wrapper
         for mode, lv, obs in itertools.product(("term", "trunc", "mixed"), range(3), ("vector", "dict")):
             nag = 2 if lv < 2 else 3
-            cases.append({"kind": "wrap", "obs": obs, "akind": "discrete", "nag": nag, "seed": rng.choice([None, 2]),
+            cases.append({"kind": "wrap", "obs": obs, "akind": "discrete", "nag": nag, "seed": rng.choice([None, 2]), "opt": rng.choice([None, 3]),
                           "env": {"lens": [2, 1, 3], "mode": mode, "leave": leaves[lv]},
                           "actions": [[x[0] for x in st] for st in actions(8, nag, 1)], "aorder": perm(nag, lv != 1)})
         for _ in range(30 if quick else 400):
@@ -321,7 +392,7 @@ class C12(vlib.Driver):
                 for a in rng.sample(range(nag), rng.randint(1, nag)):
                     leave[str(a)] = rng.randint(1, 4)
             cases.append({"kind": "wrap", "obs": rng.choice(c12_env.OBS_KINDS), "akind": rng.choice(c12_env.ACT_KINDS),
-                          "nag": nag, "seed": rng.choice([None, 0, 5]),
+                          "nag": nag, "seed": rng.choice([None, 0, 5]), "opt": rng.choice([None, 2, 8]),
                           "env": {"lens": [rng.choice([1, 2, 3, 5]) for _ in range(rng.randint(1, 3))],
                                   "mode": rng.choice(["term", "trunc", "mixed"]), "leave": leave},
                           "actions": [[x[0] for x in st] for st in actions(rng.randint(6, 12), nag, 1)],
@@ -343,24 +414,48 @@ class C12(vlib.Driver):
     def run_vec(self, case):
         N, nag, kind, akind = len(case["envs"]), case["nag"], case["obs"], case["akind"]
         fns = [make_env(env_params(case, i, e)) for i, e in enumerate(case["envs"])]
-        obs_out = {"reset": None, "steps": [], "error": None, "counters": None, "stale": []}
+        obs_out = {"reset": None, "steps": [], "error": None, "counters": None, "stale": [], "calls": None, "api": None}
         ve = AsyncPettingZooVecEnv(fns, copy=case["copy"], context=case.get("context"))
         handed = []
         try:
             try:
-                o, inf = ve.reset(seed=case["seed"])
+                o, inf = ve.reset(seed=case["seed"], options=options_of(case))
                 obs_out["reset"] = {"obs": canon_vobs(kind, o), "info": canon_infos(inf)}
                 if case["copy"]:
                     handed.append((o, obs_out["reset"]["obs"], -1))
+                else:       # the dict-like interface of the Observations object handed out in no-copy mode
+                    obs_out["api"] = {"len": len(o), "contains": [f"agent_{a}" in o for a in range(nag)] + ["nope" in o],
+                                      "get_missing_is_none": o.get("nope") is None,
+                                      "get_eq_getitem": canon_vobs(kind, {"agent_0": o.get("agent_0")}) == canon_vobs(kind, {"agent_0": o["agent_0"]}),
+                                      "keys": list(o.keys()), "items_keys": [k_ for k_, _ in o.items()],
+                                      "n_values": len(list(o.values()))}
                 for si, step in enumerate(case["actions"]):
                     # the caller's dict may list the agents in any order: it is a map
-                    acts = {f"agent_{a}": np.stack([act_value(akind, step[a][e]) for e in range(N)]) for a in aorder(case)}
+                    if akind == "dlist":     # plain Python lists of ints instead of arrays
+                        acts = {f"agent_{a}": [int(step[a][e]) for e in range(N)] for a in aorder(case)}
+                    else:
+                        acts = {f"agent_{a}": np.stack([act_value(akind, step[a][e]) for e in range(N)]) for a in aorder(case)}
                     o, r, te, tr, inf = ve.step(acts)
                     rec = {"obs": canon_vobs(kind, o), "rew": canon_vec(r), "term": canon_vec(te),
                            "trunc": canon_vec(tr), "info": canon_infos(inf)}
                     obs_out["steps"].append(rec)
                     if case["copy"]:
                         handed.append((o, rec["obs"], si))
+                # call / get_attr / set_attr / render: result i belongs to sub-environment i
+                calls = {"render": jsonable(ve.render()), "echo": jsonable(ve.call("echo", 5, k=6))}
+                ve.set_attr("marker", [10 + 3 * i for i in range(N)])
+                calls["marker_list"] = jsonable(ve.get_attr("marker"))
+                ve.set_attr("marker", (20 - i for i in range(N)) if False else tuple(20 - i for i in range(N)))
+                calls["marker_tuple"] = jsonable(ve.get_attr("marker"))
+                ve.set_attr("marker", 7)
+                calls["marker_scalar"] = jsonable(ve.get_attr("marker"))
+                try:
+                    ve.set_attr("marker", [1] * (N + 1))
+                    calls["bad_len"] = "accepted"
+                except ValueError:
+                    calls["bad_len"] = "ValueError"
+                calls["marker_after_bad"] = jsonable(ve.get_attr("marker"))
+                obs_out["calls"] = calls
                 obs_out["counters"] = [list(c) for c in ve.call("get_counters")]
             except _Timeout:
                 obs_out["error"] = {"type": "Hang", "step": len(obs_out["steps"]), "msg": f"no answer within {RUN_TIMEOUT}s"}
@@ -384,7 +479,7 @@ class C12(vlib.Driver):
         env = PettingZooAutoResetParallelWrapper(ScriptedEnv(**env_params(case, 0, case["env"])))
         out = {"reset": None, "steps": [], "error": None, "counters": None}
         try:
-            o, inf = env.reset(seed=case["seed"])
+            o, inf = env.reset(seed=case["seed"], options=options_of(case))
             out["reset"] = {"obs": canon_single(kind, o), "info": canon_sinfo(inf)}
             for step in case["actions"]:
                 acts = {f"agent_{a}": act_value(akind, step[a]) for a in aorder(case)}
@@ -419,7 +514,7 @@ class C12(vlib.Driver):
                        f"{cvinfo(rec['info'])})")
                 steps.append(f"({acts}, {ost})")
             counters = cl(f"({c[0]}, {c[1]})" for c in obs["counters"])
-            return (f"check_vec {k} {agents} {Es} {cseed(case['seed'])} ({cvobs(rs['obs'])}, {cvinfo(rs['info'])}) "
+            return (f"check_vec {k} {agents} {Es} {cseedspec(case['seed'])} {cseed(case.get('opt'))} ({cvobs(rs['obs'])}, {cvinfo(rs['info'])}) "
                     f"{cl(steps)} {counters}")
         nag = case["nag"]
         E = cenv(case, 0, case["env"])
@@ -432,7 +527,7 @@ class C12(vlib.Driver):
                   f"ttrunc := {cdict(rec['trunc'], lambda b: 'true' if b else 'false')}; tinfo := {cinfo(rec['info'])} |}}")
             steps.append(f"({czs(step)}, {tr})")
         c = obs["counters"]
-        return (f"check_wrapper {E} {cseed(case['seed'])} ({cobs(obs['reset']['obs'])}, {cinfo(obs['reset']['info'])}) "
+        return (f"check_wrapper {E} ({cseed(case['seed'])}, {cseed(case.get('opt'))}) ({cobs(obs['reset']['obs'])}, {cinfo(obs['reset']['info'])}) "
                 f"{cl(steps)} ({c[0]}, {c[1]})")
 
     # ---------- oracle: the property stated directly on the implementation's behaviour
@@ -453,8 +548,7 @@ class C12(vlib.Driver):
         space = c12_env.obs_space(kind)
         st = describe(kind)["str"]
         mspaces = list(space.spaces.values()) if st == "dict" else list(space.spaces) if st == "tuple" else [space]
-        refs = [Reference(env_params(case, i, e), None if case["seed"] is None else case["seed"] + i)
-                for i, e in enumerate(case["envs"])]
+        refs = [Reference(env_params(case, i, e), seed_for(case, i), options_of(case)) for i, e in enumerate(case["envs"])]
 
         def rows(vobs, i):
             """-> {agent: [flat member rows of env i]}, plus shape/dtype complaints"""
@@ -489,6 +583,19 @@ class C12(vlib.Driver):
                             d[k] = vals[i]
             return d
 
+        def extra_at(cinfo, a, i):
+            """the other info entries (float / bool / None / array / str / nested) of agent a, env i, through the masks"""
+            d = {}
+            for ag, ex in cinfo.get("extra", []):
+                if ag == a:
+                    for path, vals, mask in ex:
+                        if i < len(mask) and mask[i]:
+                            d[path] = vals[i] if isinstance(vals, list) and i < len(vals) else "?"
+            return d
+
+        def info_want(d):
+            return {INFO_KEYS[k]: v for k, v in d.items() if k in INFO_KEYS}
+
         out = []
         una = [bool(e.get("unaligned")) for e in case["envs"]]
 
@@ -510,7 +617,11 @@ class C12(vlib.Driver):
                 if got.get(a) != want:
                     return [Violation("reset-obs", f"vec:reset-obs:{site}",
                                       f"reset(seed={case['seed']}): env {i} agent {a} observation {got.get(a)}, alone it returns {want}")]
-                wi = {INFO_KEYS[k]: v for k, v in ref.info[f"agent_{a}"].items()}
+                wi = info_want(ref.info[f"agent_{a}"])
+                we = c12_flatten(ref.info[f"agent_{a}"])
+                if extra_at(rs["info"], a, i) != we:
+                    return [Violation("reset-info", "vec:reset-info:values",
+                                      f"reset: env {i} agent {a} info values {extra_at(rs['info'], a, i)}, alone {we}")]
                 if info_at(rs["info"], a, i) != wi:
                     return [Violation("reset-info", "vec:reset-info",
                                       f"reset: env {i} agent {a} info {info_at(rs['info'], a, i)}, alone {wi}")]
@@ -546,12 +657,36 @@ class C12(vlib.Driver):
                         if g is None or len(g) != N or g[i] != wantv:
                             return [V(i, name, f"vec:{name}" + ("" if ag in ref_d else ":left-agent"),
                                       f"{where} agent {a}: {name} {g}, position {i} expected {wantv}")]
-                    wi = {INFO_KEYS[k]: v for k, v in inf[ag].items()} if ag in inf else {}
+                    wi = info_want(inf[ag]) if ag in inf else {}
+                    we = c12_flatten(inf[ag]) if ag in inf else {}
+                    if extra_at(rec["info"], a, i) != we:
+                        return [V(i, "info", "vec:info:values",
+                                  f"{where} agent {a}: info values {extra_at(rec['info'], a, i)}, alone {we}")]
                     if info_at(rec["info"], a, i) != wi:
                         return [V(i, "info", "vec:info" + (":autoreset" if was_reset else ""),
                                   f"{where} agent {a}: info {info_at(rec['info'], a, i)}, alone {wi}")]
             if rec["info"]["unknown"]:
                 return [Violation("info", "vec:info-keys", f"unexpected info keys {rec['info']['unknown']}")]
+        # call / get_attr / set_attr / render: result i is sub-environment i's
+        c = obs.get("calls")
+        if c is not None:
+            want = {"render": [["frame", i, r.env.ord, r.env.t] for i, r in enumerate(refs)],
+                    "echo": [[i, 5, 6] for i in range(N)],
+                    "marker_list": [10 + 3 * i for i in range(N)], "marker_tuple": [20 - i for i in range(N)],
+                    "marker_scalar": [7] * N, "bad_len": "ValueError", "marker_after_bad": [7] * N}
+            for k_, w in want.items():
+                if c.get(k_) != w:
+                    out.append(Violation("call", f"vec:call:{k_}", f"{k_}: got {c.get(k_)}, expected {w} (one result per sub-environment, in order)"))
+                    break
+        api = obs.get("api")
+        if api is not None:
+            names = [f"agent_{a}" for a in range(nag)]
+            want = {"len": nag, "contains": [True] * nag + [False], "get_missing_is_none": True, "get_eq_getitem": True,
+                    "keys": names, "items_keys": names, "n_values": nag}
+            for k_, w in want.items():
+                if api.get(k_) != w:
+                    out.append(Violation("observations-api", f"vec:observations-api:{k_}", f"Observations.{k_}: {api.get(k_)}, expected {w}"))
+                    break
         # only environment i is reset when it finishes: the workers' own reset counters
         for i, ref in enumerate(refs):
             c = obs["counters"][i]
@@ -569,7 +704,7 @@ class C12(vlib.Driver):
         if obs["error"] is not None:
             e = obs["error"]
             return [Violation("no-exception", f"wrap:exception:{e['type']}", f"wrapper raised {e['type']} at step {e['step']}: {e['msg']}")]
-        ref = Reference(env_params(case, 0, case["env"]), case["seed"])
+        ref = Reference(env_params(case, 0, case["env"]), case["seed"], options_of(case))
         if obs["reset"]["obs"] != canon_single(kind, ref.obs) or obs["reset"]["info"] != canon_sinfo(ref.info):
             return [Violation("reset", "wrap:reset", f"reset returned {obs['reset']}")]
         for si, (step, rec) in enumerate(zip(case["actions"], obs["steps"])):
@@ -624,7 +759,8 @@ class C12(vlib.Driver):
         d = describe(case["obs"])
         olab = case["obs"] if isinstance(case["obs"], str) else "generated-" + d["str"]
         labs = [f"kind={case['kind']}", f"obs={olab}", f"act={case['akind']}", f"agents={case['nag']}",
-                f"seed={'none' if case['seed'] is None else 'int'}"]
+                f"seed={'none' if case['seed'] is None else 'list' if isinstance(case['seed'], list) else 'int'}",
+                f"options={'none' if case.get('opt') is None else 'given'}"]
         if case["kind"] == "vec":
             labs += [f"num_envs={len(envs)}", f"copy={case['copy']}", f"context={case.get('context') or 'default(fork)'}"]
         labs += sorted({f"end={e['mode']}" for e in envs})
@@ -633,6 +769,8 @@ class C12(vlib.Driver):
         labs.append("leavers" if any(e.get("leave") for e in envs) else "no-leavers")
         if any(e.get("unaligned") for e in envs):
             labs.append("unaligned-dicts")
+        if case.get("rich_info"):
+            labs.append("info-values=all-kinds")
         if any(e.get("reversed_out") for e in envs):
             labs.append("env-dicts-reversed")
         labs.append("action-dict=" + ("agents-order" if aorder(case) == list(range(case["nag"])) else "permuted"))
